@@ -126,9 +126,14 @@ Validate(a) ==
   ELSE "valid"
 
 \* ------------------------------------------------------------------------------------- key classes
+\* "default": some in-range value;  "explicit_default": the very value the parameter has when it is not given, passed explicitly (legal, and it marks the
+\* parameter as set by the user);  "nan": not-a-number for a float-typed parameter (in no range, so an input error)
 ClassesOf(r) ==
   IF r.type = "bool" THEN {"true", "false", "wrongtype"}
-  ELSE {"default", "wrongtype"} \cup (IF r.lo # "none" THEN {"atlo", "below"} ELSE {}) \cup (IF r.hi # "none" THEN {"athi", "above"} ELSE {})
+  ELSE {"default", "explicit_default", "wrongtype"} \cup (IF r.lo # "none" THEN {"atlo", "below"} ELSE {}) \cup (IF r.hi # "none" THEN {"athi", "above"} ELSE {})
+       \cup (IF r.type = "float" THEN {"nan"} ELSE {})
+\* the shape of the problem a key is tried on: m >= n, or the under-determined case m < n (where solve switches the default growing method itself)
+Shapes == {"over", "under"}
 
 \* option dependencies that make a single in-range value an input error (defaults: random_initial_directions FALSE,
 \* reset_delta FALSE, use_full_rank_interp TRUE)
@@ -136,7 +141,7 @@ DependencyError(key, cls) ==
   \/ key = "init.run_in_parallel" /\ cls = "true"
   \/ key = "growing.reset_rho" /\ cls = "true"
   \/ key = "growing.perturb_trust_region_step" /\ cls = "true"
-KeyValid(r, cls) == cls \in {"default", "atlo", "athi", "true", "false"} /\ ~DependencyError(r.key, cls)
+KeyValid(r, cls) == cls \in {"default", "explicit_default", "atlo", "athi", "true", "false"} /\ ~DependencyError(r.key, cls)
 
 \* --------------------------------------------------------------------------------------- result kinds
 ResDomain == [ x      : {"finite", "nan"},
@@ -153,7 +158,8 @@ ResDomain == [ x      : {"finite", "nan"},
 VARIABLES kind, st
 vars == <<kind, st>>
 Init == \/ kind = "arg" /\ st \in ArgDomain
-        \/ kind = "key" /\ \E i \in 1..Len(KeyTable) : \E c \in ClassesOf(KeyTable[i]) : st = [key |-> KeyTable[i].key, row |-> KeyTable[i], cls |-> c]
+        \/ kind = "key" /\ \E i \in 1..Len(KeyTable) : \E c \in ClassesOf(KeyTable[i]) : \E sh \in Shapes :
+                             st = [key |-> KeyTable[i].key, row |-> KeyTable[i], cls |-> c, shape |-> sh]
         \/ kind = "unknown" /\ st = [key |-> "no.such.parameter"]
         \/ kind = "res" /\ st \in ResDomain
 Next == UNCHANGED vars
